@@ -42,6 +42,12 @@ CHECKS = {
  "C12": ("runtime monitor: per-sample error oracle against the bound computed from the QCD step sizes (independent 15444-1 walker) propagated through an independent float64 9/7 synthesis (exact impulse gains up to 4096 samples, absolute-lifting upper bound above) and |ICT^-1|",
          "Held on every executed (image, configuration): every quality 1..100, NumLevels 0..6, P in {8,12,16}, signed/unsigned, 1/3 components, sizes to 512. One known finding (int32 overflow of the quantiser at very fine steps).",
          "Trusted: internal/ref/j2kwalk.go and dwt97.go (self-validated in the prelude: perfect reconstruction, conservative >= exact gains); allowance fixed in DESIGN.md before the check existed.", "3/C12"),
+ "C13": ("runtime monitor: differential execution against an independent T.81 Annex H lossless encoder and decoder (internal/ref/t81lossless.go) in both directions over executed images and stream layouts",
+         "Held on every executed case: (A) library streams for predictors 1..7, auto and SV1 decoded by the reference to the source with matching header fields; (B) reference streams over predictor x precision x components x table destinations 0..3 x table kinds (Annex K extended, K.2 optimal, random canonical up to 16-bit codes) x DHT placement x APPn/COM x component ids decoded by the library to the source.",
+         "Trusted: the reference codec (validated in the prelude against itself, the H.1.2.1 rules on a hand-computed case, and the strict marker walker). A misreading of T.81 shared by reference and library is out of reach.", "3/C13"),
+ "C14": ("runtime monitor: differential execution against an independent T.87 decoder (internal/ref/t87.go, default parameters, ILV 0 and 2), byte-equality of the two encoders at NEAR=0, cross-package decoding, and the Annex H.3 vector",
+         "Held on every executed image: P 2..16, components 1/3, NEAR 0 and a spread up to the maximum, all content classes, complete small-image spaces at NEAR 0 and 1; the reference decoder reports how many regular / run / interruption samples, escape codes, context resets, bias saturations and modulo corrections it went through.",
+         "Trusted: the reference decoder, pinned by the H.3 vector; see the honesty note in DESIGN appendix A.3. lossless.Decode on NEAR>0 streams is recorded, not judged.", "3/C14"),
 }
 
 NOT_YET = {
